@@ -177,7 +177,7 @@ func getName(nodeSet NodeSet, ok bool, nameType nameType) (Result, error) {
 		return String(""), nil
 	}
 
-	firstNode := nodeSet[0]
+	firstNode := nodeSet.first()
 
 	if n, ok := firstNode.Node().(node.NamedNode); ok {
 		if nameType == localOnly || (nameType == localAndNamespace && n.Space() == "") {
